@@ -113,6 +113,36 @@ fn expected_cli(world: &World, content: &str, mode: Mode, fmt: &str, split: &str
     Some(out)
 }
 
+/// For files with a line the library rejects (too long, --split-sentences no): what a tool that carries on may print -
+/// the rejected line contributes nothing, or what an empty analysis contributes
+fn expected_cli_with_rejected(world: &World, content: &str, mode: Mode, fmt: &str) -> Option<(String, String, usize)> {
+    let (mut a, mut b) = (String::new(), String::new());
+    let mut rejected = 0;
+    let mut t = Tok::new(&world.dict, mode);
+    for raw in content.split_inclusive('\n') {
+        let line = raw.strip_suffix('\n').unwrap_or(raw);
+        let line = if raw.ends_with('\n') { line.strip_suffix('\r').unwrap_or(line) } else { line };
+        let mut piece = String::new();
+        let ok = t.run(line).is_ok();
+        if !ok {
+            rejected += 1;
+            t = Tok::new(&world.dict, mode);
+            t.run("").ok()?;
+        }
+        let obs = observe(&t.list);
+        match fmt {
+            "w" => render_wakati(&obs, &mut piece),
+            "a" => render_simple(&obs, true, &mut piece),
+            _ => render_simple(&obs, false, &mut piece),
+        }
+        if ok {
+            a.push_str(&piece);
+        }
+        b.push_str(&piece);
+    }
+    Some((a, b, rejected))
+}
+
 fn gen_file(rng: &mut Rng, keys: &[String]) -> String {
     let mut s = String::new();
     let n = 1 + rng.below(7);
@@ -305,10 +335,26 @@ pub fn run(ctx: &Ctx, rep: &mut Report) {
             let mode = MODES[rng.below(3)];
             let fmt = *rng.pick(&["", "a", "w"]);
             let split = *rng.pick(&["yes", "yes", "no", "only"]);
-            let expected = match guard(|| expected_cli(&world, &content, mode, fmt, split)) {
+            // one file in six of those analysed line by line has, between ordinary lines, a line the library rejects as too long
+            let mut content = content;
+            let mut tolerant: Option<(String, String)> = None;
+            if split == "no" && rng.chance(1, 6) {
+                let long_line = "あ".repeat(16384 + rng.below(3));
+                let at = content.find('\n').map(|p| p + 1).unwrap_or(content.len());
+                if at == content.len() && !content.ends_with('\n') {
+                    content.push('\n');
+                }
+                let at = at.min(content.len());
+                content.insert_str(at, &format!("{}\n{}\n", long_line, textgen::text_from_keys(&mut rng, &keys, 3).replace(['\n', '\r'], "")));
+                match guard(|| expected_cli_with_rejected(&world, &content, mode, fmt)) {
+                    Ok(Some((a, b, n))) if n > 0 => tolerant = Some((a, b)),
+                    _ => continue,
+                }
+            }
+            let expected = if tolerant.is_some() { String::new() } else { match guard(|| expected_cli(&world, &content, mode, fmt, split)) {
                 Ok(Some(e)) => e,
                 _ => continue,
-            };
+            } };
             let use_file_out = rng.chance(1, 3);
             let use_stdin = rng.chance(1, 2);
             let in_path = dir.join(format!("input{}.txt", fi));
@@ -349,10 +395,24 @@ pub fn run(ctx: &Ctx, rep: &mut Report) {
                 Err(_) => continue,
             };
             if !o.status.success() {
+                if tolerant.is_some() {
+                    // giving up at a line the library rejects is one of the two behaviours a tool may have
+                    rep.count("cli_runs_that_stop_at_a_rejected_line", 1);
+                    continue;
+                }
                 rep.violation("cli_failed", "sudachi CLI", &format!("exit status {:?}: {}", o.status, clip(&String::from_utf8_lossy(&o.stderr), 400)), "", scen());
                 continue;
             }
             let got = if use_file_out { std::fs::read_to_string(&out_path).unwrap_or_default() } else { String::from_utf8_lossy(&o.stdout).to_string() };
+            if let Some((a, b)) = &tolerant {
+                rep.count("cli_runs_that_carry_on_after_a_rejected_line", 1);
+                if &got != a && &got != b {
+                    let (gl, el): (Vec<&str>, Vec<&str>) = (got.lines().collect(), a.lines().collect());
+                    let k = gl.iter().zip(el.iter()).position(|(x, y)| x != y).unwrap_or(gl.len().min(el.len()));
+                    rep.violation("cli_rejected_line", "sudachi CLI", &format!("a line the library rejects as too long: the tool carries on, but output line {} is {:?}; the lines the library analyses give {:?} there ({} vs {} lines): morphemes are printed that no analysis of this input produced", k, gl.get(k), el.get(k), gl.len(), el.len()), "", scen());
+                }
+                continue;
+            }
             rep.count("cli_runs_compared", 1);
             if split == "only" {
                 rep.count("cli_sentence_only_runs_compared", 1);
